@@ -188,3 +188,140 @@ pub fn vsct(h: &[R], n: usize) -> Vec<Want> {
         })
         .collect()
 }
+
+// ---------------------------------------------------------------- C05 RSI family
+
+/// gains / losses over the N most recent values (d = 0 for the very first value of the stream)
+pub fn gains_losses(h: &[R], t: usize, n: usize) -> (R, R) {
+    let lo = (t + 1).saturating_sub(n);
+    let mut g = R::zero();
+    let mut l = R::zero();
+    for i in lo..=t {
+        let d = if i == 0 { R::zero() } else { &h[i] - &h[i - 1] };
+        if d.is_positive() {
+            g += d;
+        } else {
+            l += d.abs();
+        }
+    }
+    (g, l)
+}
+pub fn rsi(h: &[R], n: usize) -> Vec<Want> {
+    (0..h.len())
+        .map(|t| {
+            if t + 1 < n {
+                return Want::None;
+            }
+            let (g, l) = gains_losses(h, t, n);
+            if l.is_zero() {
+                Want::Val(ri(100))
+            } else {
+                Want::Val(ri(100) * &g / (&g + &l))
+            }
+        })
+        .collect()
+}
+/// MyRSI = (G-L)/(G+L), previous output kept while G+L = 0; the statement fixes no value while the stream has been
+/// flat from its very first value (no previous output exists): those steps are Open.
+pub fn my_rsi(h: &[R], n: usize) -> Vec<Want> {
+    let mut prev: Option<R> = None;
+    (0..h.len())
+        .map(|t| {
+            let (g, l) = gains_losses(h, t, n);
+            if !(&g + &l).is_zero() {
+                prev = Some((&g - &l) / (&g + &l));
+            }
+            if t + 1 < n {
+                Want::None
+            } else {
+                match &prev {
+                    Some(v) => Want::Val(v.clone()),
+                    None => Want::Open,
+                }
+            }
+        })
+        .collect()
+}
+
+// ---------------------------------------------------------------- C06 trend indicators
+
+/// Pearson correlation between the N windowed values and their time index on a full window (0 when either variance is 0).
+/// Returns (numerator, squared denominator) so that callers can compare r or r^2 as they like.
+pub fn pearson_parts(w: &[R]) -> (R, R) {
+    let n = ri(w.len() as i64);
+    let (mut sx, mut sy, mut sxx, mut sxy, mut syy) = (R::zero(), R::zero(), R::zero(), R::zero(), R::zero());
+    for (i, v) in w.iter().enumerate() {
+        let c = ri(i as i64);
+        sx += v;
+        sy += &c;
+        sxx += v * v;
+        sxy += v * &c;
+        syy += &c * &c;
+    }
+    let num = &n * &sxy - &sx * &sy;
+    let den2 = (&n * &sxx - &sx * &sx) * (&n * &syy - &sy * &sy);
+    (num, den2)
+}
+pub fn cti(h: &[R], n: usize) -> Vec<Want> {
+    (0..h.len())
+        .map(|t| {
+            if t + 1 < n {
+                return Want::Open; // the statement speaks about full windows only
+            }
+            let (num, den2) = pearson_parts(window(h, t, n));
+            if den2.is_zero() || den2.is_negative() {
+                Want::Val(R::zero())
+            } else {
+                Want::Val(num / q_sqrt_ratio(&den2))
+            }
+        })
+        .collect()
+}
+/// Kendall's tau between values and time over all pairs of the window, ties contributing 0
+pub fn kendall(w: &[R]) -> R {
+    let n = w.len();
+    let mut s: i64 = 0;
+    for i in 0..n {
+        for j in (i + 1)..n {
+            s += match w[j].cmp(&w[i]) {
+                std::cmp::Ordering::Greater => 1,
+                std::cmp::Ordering::Less => -1,
+                std::cmp::Ordering::Equal => 0,
+            };
+        }
+    }
+    R::new(BigInt::from(2 * s), BigInt::from((n * (n - 1)) as i64))
+}
+pub fn net(h: &[R], n: usize) -> Vec<Want> {
+    (0..h.len())
+        .map(|t| {
+            let w = window(h, t, n);
+            if w.len() < 2 {
+                Want::Open
+            } else if t + 1 < n {
+                Want::IfSome(kendall(w))
+            } else {
+                Want::Val(kendall(w))
+            }
+        })
+        .collect()
+}
+/// CoG = (n+1)/2 - sum_k k x_(t-k+1) / sum_k x_(t-k+1), k = 1 newest; 0 when the denominator is 0
+pub fn cog_of(w: &[R]) -> R {
+    let n = w.len();
+    let mut num = R::zero();
+    let mut den = R::zero();
+    for (i, v) in w.iter().enumerate() {
+        let k = ri((n - i) as i64); // newest (last) has k = 1
+        num += &k * v;
+        den += v;
+    }
+    if den.is_zero() {
+        R::zero()
+    } else {
+        ri(n as i64 + 1) / ri(2) - num / den
+    }
+}
+pub fn cog(h: &[R], n: usize) -> Vec<Want> {
+    (0..h.len()).map(|t| if t + 1 < n { Want::IfSome(cog_of(window(h, t, n))) } else { Want::Val(cog_of(window(h, t, n))) }).collect()
+}
